@@ -27,6 +27,9 @@ def main():
     bases = {n: c05.Base(n, t) for n, t in c05.HAND_BASES}
     bases["b6"] = c05.Base("b6", c05.returns_base(False))
     bases["b7"] = c05.Base("b7", c05.returns_base(True))
+    import shutil
+    shutil.rmtree(os.path.join(OUT, "bases"), ignore_errors=True)
+    shutil.rmtree(os.path.join(OUT, "cells"), ignore_errors=True)
     os.makedirs(os.path.join(OUT, "bases"), exist_ok=True)
     os.makedirs(os.path.join(OUT, "cells"), exist_ok=True)
     for n, b in bases.items():
@@ -40,6 +43,10 @@ def main():
             if m["variant"] in DROPPED_VARIANTS:
                 continue
             for i, o in enumerate(m["obs"]):
+                # dumps taken before run-time messages of the VM stopped counting as diagnostics
+                if o["tool"] == "virt-run" and o["cls"] == "diagnosed-but-built" and o["diag"] and o["diag"][0].startswith("runtime error:"):
+                    o["cls"] = "silently-built"
+                    o["diag"] = []
                 ck = (m["rule"], m["context"], o["tool"])
                 totals[ck] = totals.get(ck, 0) + 1
                 if o["cls"] not in BAD:
